@@ -113,8 +113,11 @@ namespace ratio
         else if (std::any_of(xprs.cbegin(), xprs.cend(), [](const arith_expr &aex)
                              { return aex->get_type().get_name() == TP_KEYWORD; }) && // without a time-point there is nothing for the difference logic theory: mixed int / real expressions are linear real arithmetic, even when their bounds coincide..
                  std::all_of(xprs.cbegin(), xprs.cend(), [this](const arith_expr &aex)
-                             { return aex->get_type().get_name() == TP_KEYWORD || aex->l.vars.empty() || lra_th.lb(aex->l) == lra_th.ub(aex->l); }))
+                             { return aex->get_type().get_name() == TP_KEYWORD || aex->l.vars.empty(); }))
             return *types.at(TP_KEYWORD);
+        else if (std::any_of(xprs.cbegin(), xprs.cend(), [](const arith_expr &aex)
+                             { return aex->get_type().get_name() == TP_KEYWORD; })) // the variables of the two theories are unrelated: a time-point can only be combined with time-points and constants..
+            throw std::invalid_argument("time-points cannot be combined with integer or real variables..");
         else
             return *types.at(REAL_KEYWORD);
     }
@@ -284,16 +287,19 @@ namespace ratio
         return new bool_item(*this, sat_cr.new_disj(std::move(cases)));
     }
 
-    CORE_EXPORT arith_expr core::add(const std::vector<arith_expr> &xprs) noexcept
+    CORE_EXPORT arith_expr core::add(const std::vector<arith_expr> &xprs)
     {
         assert(xprs.size() > 1);
         lin l;
         for (const auto &aex : xprs)
             l += aex->l;
-        return new arith_item(*this, get_type(xprs), l);
+        type &tp = get_type(xprs);
+        if (tp.get_name() == TP_KEYWORD)
+            rdl_th.bounds(l); // throws std::invalid_argument if the sum is not a difference logic expression (e.g., the sum of two time-points)..
+        return new arith_item(*this, tp, l);
     }
 
-    CORE_EXPORT arith_expr core::sub(const std::vector<arith_expr> &xprs) noexcept
+    CORE_EXPORT arith_expr core::sub(const std::vector<arith_expr> &xprs)
     {
         assert(xprs.size() > 1);
         lin l;
@@ -302,7 +308,10 @@ namespace ratio
                 l += (*it)->l;
             else
                 l -= (*it)->l;
-        return new arith_item(*this, get_type(xprs), l);
+        type &tp = get_type(xprs);
+        if (tp.get_name() == TP_KEYWORD)
+            rdl_th.bounds(l); // throws std::invalid_argument if the difference is not a difference logic expression..
+        return new arith_item(*this, tp, l);
     }
 
     CORE_EXPORT arith_expr core::mult(const std::vector<arith_expr> &xprs)
@@ -355,35 +364,35 @@ namespace ratio
 
     CORE_EXPORT arith_expr core::minus(arith_expr ex) noexcept { return new arith_item(*this, ex->get_type(), -ex->l); }
 
-    CORE_EXPORT bool_expr core::lt(arith_expr left, arith_expr right) noexcept
+    CORE_EXPORT bool_expr core::lt(arith_expr left, arith_expr right)
     {
         if (get_type({left, right}).get_name() == TP_KEYWORD)
             return new bool_item(*this, rdl_th.new_lt(left->l, right->l));
         else
             return new bool_item(*this, lra_th.new_lt(left->l, right->l));
     }
-    CORE_EXPORT bool_expr core::leq(arith_expr left, arith_expr right) noexcept
+    CORE_EXPORT bool_expr core::leq(arith_expr left, arith_expr right)
     {
         if (get_type({left, right}).get_name() == TP_KEYWORD)
             return new bool_item(*this, rdl_th.new_leq(left->l, right->l));
         else
             return new bool_item(*this, lra_th.new_leq(left->l, right->l));
     }
-    CORE_EXPORT bool_expr core::eq(arith_expr left, arith_expr right) noexcept
+    CORE_EXPORT bool_expr core::eq(arith_expr left, arith_expr right)
     {
         if (get_type({left, right}).get_name() == TP_KEYWORD)
             return new bool_item(*this, rdl_th.new_eq(left->l, right->l));
         else
             return new bool_item(*this, lra_th.new_eq(left->l, right->l));
     }
-    CORE_EXPORT bool_expr core::geq(arith_expr left, arith_expr right) noexcept
+    CORE_EXPORT bool_expr core::geq(arith_expr left, arith_expr right)
     {
         if (get_type({left, right}).get_name() == TP_KEYWORD)
             return new bool_item(*this, rdl_th.new_geq(left->l, right->l));
         else
             return new bool_item(*this, lra_th.new_geq(left->l, right->l));
     }
-    CORE_EXPORT bool_expr core::gt(arith_expr left, arith_expr right) noexcept
+    CORE_EXPORT bool_expr core::gt(arith_expr left, arith_expr right)
     {
         if (get_type({left, right}).get_name() == TP_KEYWORD)
             return new bool_item(*this, rdl_th.new_gt(left->l, right->l));
@@ -391,7 +400,7 @@ namespace ratio
             return new bool_item(*this, lra_th.new_gt(left->l, right->l));
     }
 
-    CORE_EXPORT bool_expr core::eq(expr left, expr right) noexcept { return new bool_item(*this, left->new_eq(*right)); }
+    CORE_EXPORT bool_expr core::eq(expr left, expr right) { return new bool_item(*this, left->new_eq(*right)); }
 
     CORE_EXPORT void core::assert_facts(const std::vector<lit> &facts)
     {
